@@ -69,6 +69,8 @@ def gen_behav(rng, profile):
             b["kid_term"] = rng.choice([["obey", 0], ["ignore"]])
         if rng.random() < profile.get("exec_fail", 0.08):
             b["exec_fail"] = True
+        if rng.random() < profile.get("slow_spawn", 0.15):
+            b["spawn_ms"] = rng.choice([20, 50, 150, 400])
         out.append(b)
     return out
 
